@@ -205,6 +205,20 @@ inline Q dot3(const Q a[3], const Q b[3]) { return a[0] * b[0] + a[1] * b[1] + a
 
 // ---------------------------------------------------------------------------------------------------------------
 namespace ng {
+// q(z) = ((1 + 3/z^2) atan z - 3/z)/2 (H+M 2-57 with z = E/u) and q'(z) = 3 (1 + 1/z^2)(1 - atan(z)/z) - 1 (H+M 2-67);
+// for small z the closed forms cancel (leading terms z^3 2/15 and z^2 2/5), there the Maclaurin series are summed instead
+inline Q qfun(Q z) {
+  if (z > Q(0.2)) return ((1 + 3 / (z * z)) * atanq(z) - 3 / z) / 2;
+  Q s = 0, zp = z * z * z, z2 = z * z;                       // sum_{k>=1} (-1)^(k+1) 2k z^(2k+1) / ((2k+1)(2k+3))
+  for (int k = 1; k < 200; ++k) { Q t = Q(2 * k) * zp / (Q(2 * k + 1) * Q(2 * k + 3)); s += (k & 1) ? t : -t; zp *= z2; if (t < Q(1e-45) * qabs(s)) break; }
+  return s;
+}
+inline Q qpfun(Q z) {
+  if (z > Q(0.2)) return 3 * (1 + 1 / (z * z)) * (1 - atanq(z) / z) - 1;
+  Q s = 0, zp = z * z, z2 = z * z;                           // sum_{k>=1} (-1)^(k+1) 6 z^(2k) / ((2k+1)(2k+3))
+  for (int k = 1; k < 200; ++k) { Q t = 6 * zp / (Q(2 * k + 1) * Q(2 * k + 3)); s += (k & 1) ? t : -t; zp *= z2; if (t < Q(1e-45) * qabs(s)) break; }
+  return s;
+}
 // Level ellipsoid (a, GM, omega, f >= 0); H+M = Heiskanen & Moritz, Physical Geodesy (1967)
 struct Ell {
   Q a, GM, omega, f, b, E, e2, ep, m, q0, q0p, U0, gammae, gammap, J2;
@@ -214,8 +228,8 @@ struct Ell {
     m = omega * omega * a * a * b / GM;                                  // H+M 2-70
     if (!sphere) {
       ep = E / b;
-      q0 = ((1 + 3 * b * b / (E * E)) * atanq(E / b) - 3 * b / E) / 2;    // H+M 2-58
-      q0p = 3 * (1 + b * b / (E * E)) * (1 - b / E * atanq(E / b)) - 1;   // H+M 2-67 at u = b
+      q0 = qfun(E / b);                                                   // H+M 2-58
+      q0p = qpfun(E / b);                                                 // H+M 2-67 at u = b
       U0 = GM / E * atanq(E / b) + omega * omega * a * a / 3;            // H+M 2-61
       Q w = m * ep * q0p / q0;
       gammae = GM / (a * b) * (1 - m - w / 6);                            // H+M 2-73
@@ -245,7 +259,7 @@ struct Ell {
     if (sphere) { Q r = sqrtq(r2), sb2 = Z * Z / r2; return GM / r + omega * omega * a * a / 2 * (a / r) * (a / r) * (a / r) * (sb2 - Q(1) / 3); }
     Q Qd = r2 - E * E, u2 = (Qd + sqrtq(Qd * Qd + 4 * E * E * Z * Z)) / 2, u = sqrtq(u2);
     Q sb2 = Z * Z / u2;                                                    // sin^2 beta
-    Q qq = ((1 + 3 * u2 / (E * E)) * atanq(E / u) - 3 * u / E) / 2;        // H+M 2-57
+    Q qq = qfun(E / u);                                                    // H+M 2-57
     return GM / E * atanq(E / u) + omega * omega * a * a / 2 * qq / q0 * (sb2 - Q(1) / 3);
   }
   Q U(Q X, Q Y, Q Z) const { return V0(X, Y, Z) + omega * omega * (X * X + Y * Y) / 2; }
